@@ -394,7 +394,7 @@ def run_shard(desc, seed, tier):
     kind = desc[0]
     rnd = random.Random(repr((seed, desc)))
     if kind == 'single':
-        for ws in (2, 4):
+        for ws in (2, 4, 6):
             for style in ('hex', 'named', 'raw'):
                 m = check_strings(stats, [bytes([b]) for b in range(256)], style, ws)
                 if m:
@@ -472,7 +472,7 @@ def run_shard(desc, seed, tier):
     elif kind == 'arrays':
         el, k = desc[1], desc[2]
         lengths = list(range(0, 41))
-        for ws in ((2, 4) if k == 0 else (3, 8)):
+        for ws in ((2, 4, 6) if k == 0 else (3, 8, 5)):
             pool = boundary_elems(el, ws, rnd)
             batch = []
             forms = []
